@@ -44,7 +44,8 @@ PROPS = {
         "rule": "one evaluation = one generated local block set (1-4 blocks + 0-2 appearing later; levels 1-3, empty/non-empty, with/without Thanos "
                 "meta section), shipper options (upload-compacted, out-of-order uploads, upload concurrency) and restart behaviour (shipper meta file "
                 "kept or lost, a local block removed); Sync is executed fault-free, then once per crash point of its bucket operation sequence "
-                "followed by restarts and further syncs (half of them with transient bucket errors before/after the effect) until a sync succeeds. "
+                "followed by restarts and further syncs (half of them with transient bucket errors before/after the effect) until a sync succeeds; one Shipper lives as long as its process "
+                "(in a third of the scenarios a new one is made for every sync). "
                 "Oracles run after every bucket operation and every Sync. distinct = distinct event-log hash; non-trivial = the reference Sync "
                 "issued at least one bucket operation.",
         "components": BL_COMPONENTS,
@@ -67,7 +68,7 @@ PROPS = {
         "rule": "one evaluation = one generated deployment (layout aligned | replicas+vertical dedup | overlapping+vertical | two groups; 2-10 real TSDB "
                 "blocks; delays = cmd/thanos defaults or drawn; 1-2 store-gateway views with periodic sync; compaction levels 2h/8h or 2h/4h/8h) run to "
                 "quiescence fault-free, then re-run with the compactor killed at its k-th bucket operation (quick: seeded sample of 8 points; thorough: "
-                "up to 400 = all) and restarted (local dir kept or wiped), plus optionally one run with seeded transient bucket errors. Oracle after every "
+                "up to 400 = all) and restarted (local dir kept or wiped), plus optionally one run with seeded transient bucket errors, one with write outages, and one in which the compactor is restarted without its local cache once everything is older than two days and one meta.json then arrives incomplete. The background partial-upload cleanup of cmd/thanos runs concurrently (period from compact.cleanup-interval, plus seeded runs right after a sync). Oracle after every "
                 "bucket mutation: every original sample is in some gateway's current view of intact blocks; at quiescence each gateway serves exactly the "
                 "original samples, each once. distinct = distinct event-log hash; non-trivial = the compactor issued bucket operations.",
         "components": {
@@ -161,7 +162,7 @@ PROPS["C32"] = {
             "{off,1h,3h,36h}, delete delay from {cmd/thanos default, 2h, 90s}; 1-3 compactor iterations 0.5s/2s/30m apart, then late iterations far beyond every delay. "
             "Oracle on every bucket mutation of the compactor: a deletion mark is written only when now > newest sample + retention (MaxTime-1ms is the newest sample); "
             "files of a marked block are deleted only when now - recorded mark time > delete delay; files of a partial upload only when untouched for more than 48h; "
-            "nothing else is ever deleted. distinct = distinct event-log hash.",
+            "nothing else is ever deleted. Between iterations (never during one) an operator may remove the deletion mark of a block and apply a new one, also long after the compactor last looked. distinct = distinct event-log hash.",
     "components": {"real": ["compact.BucketCompactor.Compact (BlocksCleaner.DeleteMarkedBlocks, Syncer), ApplyRetentionPolicyByResolution, BestEffortCleanAbortedPartialUploads",
                             "block.MarkForDeletion/Delete, IgnoreDeletionMarkFilter, fetcher"],
                    "stub": ["object storage (simbucket, LastModified from the fake clock)", "clock (fake; every released bucket operation takes 1 ms)",
@@ -185,7 +186,7 @@ PROPS["C30"] = {
             "GatherNoCompactionMarkFilter and planned with the real planner, the plan applied (sources replaced by one merged block) and re-planned until "
             "no plan is returned. Clauses: >=2 blocks or a single block with >5% tombstones; no no-compact block; for aligned non-overlapping inputs the "
             "newest block is excluded and the plan fits one aligned window of a configured range; fixpoint within 3n+4 steps; at the fixpoint no overlap "
-            "(among not-excluded blocks) and, for aligned inputs, no block longer than the largest range. distinct = distinct event-log hash.",
+            "(among not-excluded blocks) and, for aligned inputs, no block longer than the largest range; in the histories 0-2 blocks are marked no-compact after the long-lived filter has already looked at them. distinct = distinct event-log hash.",
     "components": {"real": ["compact planner chain (tsdbBasedPlanner, largeTotalIndexSizeFilter, vertical-compaction filter in lifecycle runs)",
                             "compact.GatherNoCompactionMarkFilter, block fetcher", "in lifecycle runs: everything listed for C29"],
                    "stub": ["object storage (simbucket)", "in history runs compaction itself is replaced by its effect on metadata (merged meta.json)"]},
